@@ -210,6 +210,98 @@ def _notation_crosshair(case, tier, seed):
                              timeout_s=45 if tier == 'quick' else 150)
 
 
+def _pu(s):
+    """independent reader of the three uncertainty notations (value only)"""
+    s = s.strip()
+    if s.startswith('['):
+        parts = s[1:-1].split(',')
+        return (float(parts[0]) + float(parts[1])) / 2 if len(parts) == 2 else float(parts[0])
+    return float(s.split('(')[0])
+
+
+def _table_sweep_case(case, tier, seed):
+    """ground sweep (concrete, exhaustive over rows; not a solver claim): every nuclide of the public table and of a
+    fresh private table serves the mass / abundance / density of its row in the embedded tables"""
+    import periodictable as pt
+    from periodictable import mass, density, core
+    import re as _re
+    res = dict(paths=1, claims=0, discharged=0, queries=0, distinct=0, violations=[], inconclusive=[], samples=[], solver_s=0.0, complete=True)
+    T = _fresh_table('c06sweep')
+    try:
+        mass.init(T)
+        density.init(T)
+    finally:
+        _drop(T)
+    iso_mass = {}
+    for line in mass.isotope_mass.split('\n'):
+        iso, m, p, avg = line.split(',')
+        z, sym_, a = iso.split('-')
+        iso_mass[(int(z), int(a))] = _pu(m)
+    el_mass = {}
+    for line in mass.element_mass.split('\n'):
+        w = line.split()
+        if len(w) >= 4 and w[3] != '-':
+            el_mass[int(w[0])] = _pu(w[3])
+    abund = {}
+    z = None
+    for line in mass.isotope_abundance.split('\n'):
+        if line[0] not in ' \t':
+            z = int(line.split()[0])
+            abund[z] = {}
+        else:
+            w = line.split()
+            abund[z][int(w[0])] = _pu(w[1])
+
+    def bad(name, got, want):
+        if len(res['violations']) < 5:
+            res['violations'].append(dict(case=case.name, claim=name, values={}, observed=[repr(got), repr(want)], how='concrete table sweep'))
+    for tab in (pt.elements, T):
+        tag = 'public' if tab is pt.elements else 'private'
+        for el in tab:
+            if el.number == 0:
+                continue
+            if el.number in el_mass:
+                res['claims'] += 1
+                if el.mass == el_mass[el.number]:
+                    res['discharged'] += 1
+                else:
+                    bad('element_mass[%s|%s]' % (el.symbol, tag), el.mass, el_mass[el.number])
+            tot = sum(abund.get(el.number, {}).values())
+            for a in el.isotopes:
+                iso = el[a]
+                res['claims'] += 2
+                if (el.number, a) in iso_mass and iso.mass == iso_mass[(el.number, a)]:
+                    res['discharged'] += 1
+                else:
+                    bad('isotope_mass[%s-%d|%s]' % (el.symbol, a, tag), iso.mass, iso_mass.get((el.number, a)))
+                want = 100 * abund[el.number][a] / tot if a in abund.get(el.number, {}) else 0
+                if abs(iso.abundance - want) <= 1e-12 * max(1.0, want):
+                    res['discharged'] += 1
+                else:
+                    bad('abundance[%s-%d|%s]' % (el.symbol, a, tag), iso.abundance, want)
+            if el.number in abund:
+                res['claims'] += 1
+                if abs(sum(el[a].abundance for a in el.isotopes) - 100) < 1e-9:
+                    res['discharged'] += 1
+                else:
+                    bad('abundances_sum[%s|%s]' % (el.symbol, tag), sum(el[a].abundance for a in el.isotopes), 100)
+            res['claims'] += 1
+            d = density.element_densities.get(el.symbol)
+            d = d[0] if isinstance(d, tuple) else d
+            ok = el.density == d
+            if ok and el.isotopes:
+                a = el.isotopes[0]
+                di = el[a].density
+                ok = (di is None) if d is None else abs(di - d * el[a].mass / el.mass) <= 1e-12 * d
+            if ok:
+                res['discharged'] += 1
+            else:
+                bad('density[%s|%s]' % (el.symbol, tag), el.density, d)
+    res['queries'] = res['distinct'] = res['claims']
+    res['samples'] = [dict(rows_checked=res['claims'], note='ground sweep, exhaustive over the embedded rows; not a solver claim')]
+    return res
+
+
 def cases(tier):
     th = tier == 'thorough'
     out = []
@@ -217,5 +309,6 @@ def cases(tier):
         out.append(Case('abundance[%s]' % name, _abundance_case(name), max_paths=16, timeout_ms=30000, nsamples=1, conc_rel=1e-6))
     out.append(Case('density_relations', _density_case, max_paths=16, timeout_ms=30000))
     out.append(Case('unknown_density', _unknown_density_case, max_paths=4))
+    out.append(Case('embedded_tables_ground_sweep', None, custom=_table_sweep_case))
     out.append(Case('notation_crosshair', None, custom=_notation_crosshair, budget_s=700 if th else 230))
     return out
